@@ -8,9 +8,11 @@ import (
 	"os"
 	"path/filepath"
 	"regexp"
+	"runtime"
 	"sort"
 	"strconv"
 	"strings"
+	"sync"
 
 	"github.com/LindsayBradford/crem/internal/pkg/dataset/csv"
 	"github.com/LindsayBradford/crem/internal/pkg/model"
@@ -102,14 +104,14 @@ func constNames(t int) []action.ModelVariableName {
 // ---------------------------------------------------------------- a real catchment model under test
 
 type CM struct {
-	m      *catchment.CoreModel
-	src    *scriptSource
-	dsPath string
-	params parameters.Map
-	limVar int // index into varNames of the limited variable, -1 = none
-	limit  float64
-	pus    []planningunit.Id
-	sib    model.Model // a clone of the model taken right after loading (limited models only): a sibling run
+	m       *catchment.CoreModel
+	src     *scriptSource
+	dsPath  string
+	params  parameters.Map
+	limVar  int // index into varNames of the limited variable, -1 = none
+	limit   float64
+	pus     []planningunit.Id
+	sib     model.Model // a clone of the model taken right after loading (limited models only): a sibling run
 	sibTick int
 }
 
@@ -357,18 +359,53 @@ func (cm *CM) changes() [6]float64 {
 }
 
 // Verdict is what ChangeIsValid() answered.  For a negative verdict everything is read from the REASON TEXT the model
-// handed out (`errs.Error()`: "<variable name> <value> > upper bound <maximum>", numbers as crem's localised converter
-// prints them: six decimals, thousands separators) -- never by asking the variable again.
+// handed out (`errs.Error()`) -- never by asking the variable again.  The property (C10) says that the reason QUOTES the
+// value the variable would take; it does not pin the wording, so the text is not matched against a form: every number in
+// it is read (crem's localised converter prints thousands separators), with the number of decimals it was printed with.
 type Verdict struct {
-	valid   bool
-	msg     string  // the reason text as delivered
-	parsed  bool    // the text has the expected shape
-	name    string  // the variable the text names
-	quoted  float64 // the value the text quotes
-	maximum float64 // the bound the text quotes
+	valid bool
+	msg   string   // the reason text as delivered
+	nums  []numTok // every number the text holds
 }
 
-var boundReasonRe = regexp.MustCompile(`^(\S+) (-?[0-9][0-9,]*\.[0-9]{6}) > upper bound (-?[0-9][0-9,]*\.[0-9]{6})$`)
+type numTok struct {
+	val float64
+	dec int // decimals printed
+}
+
+var numTokRe = regexp.MustCompile(`-?[0-9][0-9,]*(?:\.([0-9]+))?(?:[eE][-+]?[0-9]+)?`)
+
+func numbersIn(text string) []numTok {
+	var out []numTok
+	for _, m := range numTokRe.FindAllStringSubmatch(text, -1) {
+		t := strings.TrimRight(m[0], ",")
+		if f, err := strconv.ParseFloat(strings.ReplaceAll(t, ",", ""), 64); err == nil {
+			out = append(out, numTok{val: f, dec: len(m[1])})
+		}
+	}
+	return out
+}
+
+// quotedNear: the number of the reason that lies closest to x (NaN when the reason holds no number).
+func (v Verdict) quotedNear(x float64) float64 {
+	best, bestD := math.NaN(), math.Inf(1)
+	for _, t := range v.nums {
+		if d := math.Abs(t.val - x); d < bestD {
+			best, bestD = t.val, d
+		}
+	}
+	return best
+}
+
+// quotes: does the reason quote x, printed with at least minDec decimals, to within half a unit of the last printed place?
+func (v Verdict) quotes(x float64, minDec int) bool {
+	for _, t := range v.nums {
+		if t.dec >= minDec && math.Abs(t.val-x) <= 0.5000001*math.Pow(10, -float64(t.dec))+1e-12*math.Abs(x) {
+			return true
+		}
+	}
+	return false
+}
 
 func parseLocalisedNumber(t string) (float64, bool) {
 	f, err := strconv.ParseFloat(strings.ReplaceAll(t, ",", ""), 64)
@@ -390,17 +427,10 @@ func (cm *CM) verdict() Verdict {
 		}
 	}
 	if ok {
-		return Verdict{valid: true, quoted: math.NaN()}
+		return Verdict{valid: true}
 	}
-	v := Verdict{msg: errs.Error(), quoted: math.NaN(), maximum: math.NaN()}
-	if m := boundReasonRe.FindStringSubmatch(v.msg); m != nil {
-		q, ok1 := parseLocalisedNumber(m[2])
-		mx, ok2 := parseLocalisedNumber(m[3])
-		if ok1 && ok2 {
-			v.parsed, v.name, v.quoted, v.maximum = true, m[1], q, mx
-		}
-	}
-	return v
+	msg := errs.Error()
+	return Verdict{msg: msg, nums: numbersIn(msg)}
 }
 
 func initKindOf(s string) model.InitialisationType {
@@ -426,7 +456,7 @@ func (cm *CM) randomize(gen func() int) (string, []int) {
 	p := protect(func() { cm.m.Randomize() })
 	draws := append([]int(nil), cm.src.log...)
 	if p != "" {
-		if strings.Contains(p, "Attempt limit reached") {
+		if isGiveUp(p) {
 			return "attempt-limit", draws
 		}
 		return "panic:" + p, draws
@@ -466,6 +496,63 @@ func (r *Ref) at(bits []bool) *Snap {
 		r.cache[key] = s
 	}
 	return s
+}
+
+// ---------------------------------------------------------------- the deliberate give-up of Randomize()
+
+// A limited catchment model's Randomize() panics deliberately when its attempt budget (one attempt per action) is used up
+// without the limit ever binding.  Several suites must tell that give-up from any other failure, also when all they see is
+// a text (a child process's output, an error crem built from the recovered panic).  The wording is nothing any property
+// talks about, so it is not pinned: it is LEARNT from the code under test, by running Randomize() on the shipped data set
+// under a cost limit and under a pollutant limit that can never bind and keeping what the panic says.
+var (
+	giveUpOnce  sync.Once
+	giveUpKnown []string
+)
+
+func giveUpTexts() []string {
+	giveUpOnce.Do(func() {
+		seen := map[string]bool{}
+		for _, v := range []int{4, 0} { // an implementation-cost limit (activating direction), a sediment limit (de-activating)
+			protect(func() {
+				cm, err := loadCM(shippedDatasets()[0], v, 1e15)
+				if err != nil || cm.n() == 0 {
+					return
+				}
+				cm.reinit("random")
+				k := 0
+				cm.src.log = nil
+				cm.src.next = func() int { k++; return k % cm.n() }
+				// only a DELIBERATE panic is learnt: a runtime error (nil dereference, index out of range, ...) is never a give-up
+				p := ""
+				func() {
+					defer func() {
+						if r := recover(); r != nil {
+							if _, isRuntime := r.(runtime.Error); !isRuntime {
+								p = fmt.Sprint(r)
+							}
+						}
+					}()
+					cm.m.Randomize()
+				}()
+				if len(p) >= 16 && !seen[p] && len(cm.src.log) < 10000 {
+					seen[p] = true
+					giveUpKnown = append(giveUpKnown, p)
+				}
+			})
+		}
+	})
+	return giveUpKnown
+}
+
+// isGiveUp: does the text carry the give-up message of the code under test (or the wording of the pinned commit)?
+func isGiveUp(text string) bool {
+	for _, t := range giveUpTexts() {
+		if strings.Contains(text, t) {
+			return true
+		}
+	}
+	return strings.Contains(text, "Attempt limit "+"reached")
 }
 
 // ---------------------------------------------------------------- shipped datasets
